@@ -160,6 +160,7 @@ theorem handleReq_fb (cfg : Cfg) (R : RespTab) (c : Conn) (r : Nat) :
   · split <;> exact FB.nofree (by simp)
   · exact replyPre_fb cfg R c _ _ _ r
   · exact FB.refl r _
+  · exact replyPre_fb cfg R { c with inClose := true } _ _ _ r
   · split
     · exact runReply_fb R _ _ true r
     · exact FB.refl r _
